@@ -4,8 +4,11 @@ import (
 	"fmt"
 	"go/token"
 	"go/types"
+	"reflect"
+	"sort"
 	"strings"
 
+	"golang.org/x/tools/go/packages"
 	"golang.org/x/tools/go/ssa"
 
 	"verif/checker/eng"
@@ -1141,5 +1144,215 @@ func ruleFlushBeforeElement(c *eng.Ctx) {
 			}
 		}
 		c.Check(final, R, name+"#final-flush", fn.Pos(), "pending list flushed after the loop", "the list still pending when the body ends is never added to the page")
+	}
+}
+
+// enclosingLoopHeaders returns the headers of the loops that contain block b, outermost first.
+func enclosingLoopHeaders(b *ssa.BasicBlock) []*ssa.BasicBlock {
+	var hs []*ssa.BasicBlock
+	fn := b.Parent()
+	for _, h := range fn.Blocks {
+		if !h.Dominates(b) {
+			continue
+		}
+		// h is a loop header containing b: some predecessor of h is reachable from b without leaving h's dominance
+		back := false
+		for _, p := range h.Preds {
+			if h.Dominates(p) {
+				reach := eng.ReachableBlocks([]*ssa.BasicBlock{b}, func(x *ssa.BasicBlock) bool { return x == h })
+				if reach[p] || p == b {
+					back = true
+				}
+			}
+		}
+		if back {
+			hs = append(hs, h)
+		}
+	}
+	sort.Slice(hs, func(i, j int) bool { return hs[i].Dominates(hs[j]) && hs[i] != hs[j] })
+	return hs
+}
+
+// loopRangeSource returns the slice/array values whose length bounds the induction variable of the loop at header h.
+func loopRangeSource(h *ssa.BasicBlock) []ssa.Value {
+	var out []ssa.Value
+	for _, in := range h.Instrs {
+		ph, ok := in.(*ssa.Phi)
+		if !ok {
+			continue
+		}
+		ind, isInd := eng.Induction(ph)
+		if !isInd {
+			continue
+		}
+		cands := []ssa.Value{ind}
+		for _, e := range ind.Edges {
+			if b, ok := e.(*ssa.BinOp); ok && b.X == ssa.Value(ind) {
+				cands = append(cands, b)
+			}
+		}
+		for _, cand := range cands {
+			for _, r := range *cand.Referrers() {
+				if b, ok := r.(*ssa.BinOp); ok && b.Op == token.LSS && b.X == cand {
+					if call, ok := b.Y.(*ssa.Call); ok && eng.CalleeName(call) == "builtin:len" {
+						out = append(out, call.Call.Args[0])
+					}
+				}
+			}
+		}
+	}
+	return out
+}
+
+// R18.11 [C18]
+func ruleChaptersInSpineOrder(c *eng.Ctx) {
+	const R = "R18.11-CHAPTERS-SPINE-ORDER"
+	c.Rule(R, "the EPUB reader appends chapters while walking the spine (the outermost loop around the append ranges over the package's Spine), or sorts them by spine position afterwards: walking the archive members instead yields the chapters in ZIP order", 1, 0)
+	root := c.P.Func("epubdoc.(*Reader).loadChapters")
+	if root == nil {
+		c.Undec(R, "epubdoc.(*Reader).loadChapters", token.NoPos, "anchor not found")
+		return
+	}
+	n := 0
+	for _, fn := range eng.Cluster(root, 2) {
+		if fn.Pkg != root.Pkg {
+			continue
+		}
+		sorted := false
+		for _, ci := range eng.Calls(fn, false, func(nm string, _ ssa.CallInstruction) bool { return sortInPlace[nm] }) {
+			for v := range eng.Slice(ci.Common().Args[0], nil) {
+				if fr, ok := eng.AsField(v); ok && fr.Field == "chapters" {
+					sorted = true
+				}
+			}
+		}
+		eng.Instrs(fn, false, func(in ssa.Instruction) {
+			st, ok := in.(*ssa.Store)
+			if !ok {
+				return
+			}
+			fr, ok := eng.AsField(st.Addr)
+			if !ok || fr.Field != "chapters" {
+				return
+			}
+			call, ok := st.Val.(*ssa.Call)
+			if !ok || eng.CalleeName(call) != "builtin:append" {
+				return
+			}
+			n++
+			key := fmt.Sprintf("%s#append%d", eng.FuncName(fn), n)
+			hs := enclosingLoopHeaders(st.Block())
+			okOrder := sorted
+			if len(hs) > 0 {
+				for _, src := range loopRangeSource(hs[0]) {
+					for v := range eng.Slice(src, nil) {
+						if fr, ok := eng.AsField(v); ok && fr.Field == "Spine" {
+							okOrder = true
+						}
+					}
+				}
+			}
+			c.Check(okOrder, R, key, st.Pos(), "chapters are appended in spine order", "chapters are appended inside a loop that does not walk the spine and are not sorted by spine position afterwards: the reading order becomes the order of the archive members")
+		})
+	}
+	if n == 0 {
+		c.Undec(R, "epubdoc.(*Reader).loadChapters#append", root.Pos(), "no append to the chapter list found")
+	}
+}
+
+// R18.12 [C18]
+func ruleRelIDAttrQualified(c *eng.Ctx) {
+	const R = "R18.12-RELID-ATTR-QUALIFIED"
+	c.Rule(R, "elements of presentation.xml that carry both a plain id and an r:id attribute (p:sldId, p:sldMasterId; ECMA-376 part 1 19.2.1.33/36) are decoded with the relationship id bound to the relationships namespace: encoding/xml matches an unqualified `id,attr` tag against BOTH attributes and keeps whichever comes last, so the declared order would depend on the attribute order the writer chose; no field with the unqualified tag is read", 1, 0)
+	both := map[string]bool{"sldId": true, "sldMasterId": true}
+	var pkg *packages.Package
+	for _, pk := range c.P.Pkgs {
+		if eng.ShortPath(pk.PkgPath) == "pptx" {
+			pkg = pk
+		}
+	}
+	if pkg == nil {
+		c.Undec(R, "pptx", token.NoPos, "package not loaded")
+		return
+	}
+	scope := pkg.Types.Scope()
+	n := 0
+	for _, nm := range scope.Names() {
+		tn, ok := scope.Lookup(nm).(*types.TypeName)
+		if !ok {
+			continue
+		}
+		st, ok := tn.Type().Underlying().(*types.Struct)
+		if !ok {
+			continue
+		}
+		for i := 0; i < st.NumFields(); i++ {
+			if !both[xmlTagName(st.Tag(i))] {
+				continue
+			}
+			ft := st.Field(i).Type()
+			for {
+				switch u := ft.(type) {
+				case *types.Pointer:
+					ft = u.Elem()
+					continue
+				case *types.Slice:
+					ft = u.Elem()
+					continue
+				}
+				break
+			}
+			est, ok := ft.Underlying().(*types.Struct)
+			if !ok {
+				continue
+			}
+			n++
+			key := "pptx <" + xmlTagName(st.Tag(i)) + ">"
+			qualified := false
+			var loose []*types.Var
+			for j := 0; j < est.NumFields(); j++ {
+				tag := reflect.StructTag(est.Tag(j)).Get("xml")
+				if !strings.HasSuffix(tag, "id,attr") {
+					continue
+				}
+				if strings.Contains(tag, "relationships id,attr") {
+					qualified = true
+				} else if tag == "id,attr" {
+					loose = append(loose, est.Field(j))
+				}
+			}
+			// an unqualified field must not be read
+			readLoose := ""
+			for _, fn := range c.P.ModuleFuncs() {
+				if fn.Pkg == nil || fn.Pkg.Pkg != pkg.Types {
+					continue
+				}
+				eng.Instrs(fn, false, func(in ssa.Instruction) {
+					var fv *types.Var
+					switch x := in.(type) {
+					case *ssa.FieldAddr:
+						if s, ok := x.X.Type().Underlying().(*types.Pointer); ok {
+							if ss, ok := s.Elem().Underlying().(*types.Struct); ok && ss == est {
+								fv = ss.Field(x.Field)
+							}
+						}
+					case *ssa.Field:
+						if ss, ok := x.X.Type().Underlying().(*types.Struct); ok && ss == est {
+							fv = ss.Field(x.Field)
+						}
+					}
+					for _, l := range loose {
+						if fv == l {
+							readLoose = l.Name()
+						}
+					}
+				})
+			}
+			c.Check(qualified && readLoose == "", R, key, st.Field(i).Pos(), "relationship id is namespace-qualified",
+				"the relationship id of this element is not bound to the relationships namespace (or the ambiguous field "+readLoose+" is read): with r:id written before id the slide order falls back to file names")
+		}
+	}
+	if n == 0 {
+		c.Undec(R, "pptx <sldId>", token.NoPos, "no struct is decoded for this element")
 	}
 }
